@@ -239,16 +239,27 @@ theorem dOutEff_nonzero_iff (dsc : Bool) (C : ℕ) (α : ℕ → ℚ) (i : ℕ) 
     · rw [if_neg hi] at h; exact absurd rfl h
   · rintro ⟨hi, h0⟩; rw [if_pos hi]; exact sgn_ne_zero _ h0
 
-/-- gradient of the `params` cost of a Conv1d with respect to `alpha[i]`, through the generated
-cost function in the Dual reading: `sign(alpha[i]) · (cin·k + bias)` -/
-theorem params_conv1d_grad_alpha (dsc : Bool) (C : ℕ) (α : ℕ → ℚ) (i : ℕ) (cin k : ℚ) (bias : Bool) :
-    (Gen.params._params_conv1d_generic.val (conv1dAlphaDual dsc C α i cin k bias)).d
-      = dOutEff dsc C α i * (cin * k + if bias then 1 else 0) := by
+/-- gradient of the `params` cost of a Conv1d with `g ≠ 0` groups with respect to `alpha[i]`, through
+the generated cost function in the Dual reading: `sign(alpha[i]) · (cin/g·k + bias)` (the guard is
+needed: the handler divides by `groups`) -/
+theorem params_conv1d_grad_alpha (dsc : Bool) (C : ℕ) (α : ℕ → ℚ) (i : ℕ) (cin g k : ℚ) (hg : g ≠ 0)
+    (bias : Bool) :
+    (Gen.params._params_conv1d_generic.val (conv1dAlphaDual dsc C α i cin g k bias)).d
+      = dOutEff dsc C α i * (cin / g * k + if bias then 1 else 0) := by
   unfold Gen.params._params_conv1d_generic.val dOutEff
-  simp only [conv1dAlphaDual, LSpec.empty, CostNum.mul, CostNum.add, CostNum.idx, CostNum.ofRat]
+  simp only [conv1dAlphaDual, LSpec.empty, CostNum.mul, CostNum.add, CostNum.div, CostNum.idx, CostNum.ofRat]
   cases bias <;> simp <;> ring
 
+/-- the layers PIT searches have `groups = 1`: `sign(alpha[i]) · (cin·k + bias)` -/
+theorem params_conv1d_grad_alpha_groups_one (dsc : Bool) (C : ℕ) (α : ℕ → ℚ) (i : ℕ) (cin k : ℚ) (bias : Bool) :
+    (Gen.params._params_conv1d_generic.val (conv1dAlphaDual dsc C α i cin 1 k bias)).d
+      = dOutEff dsc C α i * (cin * k + if bias then 1 else 0) := by
+  rw [params_conv1d_grad_alpha dsc C α i cin 1 k one_ne_zero bias, div_one]
+
 /-! ### non-vacuity -/
+
+example : (Gen.params._params_conv1d_generic.val
+    (conv1dAlphaDual true 4 (ofList [9/10, 1/5, -7/10, 1]) 2 6 2 3 true)).d = -10 := by decide +kernel
 
 example : dOutEff true 4 (ofList [9/10, 1/5, -7/10, 1]) 2 = -1 ∧
     dOutEff false 4 (ofList [9/10, 1/5, -7/10, 1]) 3 = 0 := by decide +kernel
